@@ -701,6 +701,8 @@ def glue_obligations(glue: dict) -> dict[str, str]:
     obs['leaf_flags_fit_below_area_shift'] = 'leaf_flags_fit leaf_area_offset leaf_flag_values'
     obs['leaf_area_shift_is_the_layout_constant_on_both_sides'] = 'leaf_area_shift_from_layout'
     obs['brushside_bevel_masks_complementary'] = 'bevel_masks_complementary'
+    obs['no_value_is_masked_before_pack'] = 'Nat.eqb (List.length masked_before_pack) 0'
+    obs['every_pack_call_is_a_census_site'] = 'negb (Nat.eqb pack_calls_in_census 0)'
     return obs
 
 
